@@ -76,13 +76,15 @@ def prepare(params):
     registry._initialized = True  # environment stub: skip django autodiscovery, the class is registered by its metaclass
     registry.register(M)
 
-    class Holder(MachineMixin):
-        state_machine_name = f"{M.__module__}.{M.__name__}"
-        bind_events_as_methods = True
+    class Row:
+        """What an ORM base class does: its initialiser assigns the column defaults."""
 
         def __init__(self):
             self.state = None
-            super().__init__()
+
+    class Holder(MachineMixin, Row):  # the mixin listed first, no initialiser of its own
+        state_machine_name = f"{M.__module__}.{M.__name__}"
+        bind_events_as_methods = True
 
     _C["M"], _C["log"], _C["Holder"] = M, log, Holder
     ref = M()
@@ -200,6 +202,8 @@ def run_styles(ctx, params):
             if st == "mixin-method":
                 holder = Holder()
                 sm = holder.statemachine
+                if holder.state != "a" or sm.current_state.id != "a":
+                    raise Mismatch("mixin-object-not-in-initial-state", f"a fresh MachineMixin object: stored state {holder.state!r}, machine in {getattr(sm.current_state, 'id', None)!r}")
                 sm.allow_event_without_transition = params["allow"]
             else:
                 holder = None
